@@ -157,7 +157,6 @@ func c14RewriteRead(diskSize int64, lss int, pmbr bool, i1, i2 int, smask, emask
 	vp.Assert(q2.Attributes == a2, "p2 attributes read back")
 	q1.Start, q1.End, q1.Size, q1.Attributes = s1, e1, (e1-s1+1)*uint64(lss), a1
 	q2.Start, q2.End, q2.Size, q2.Attributes = s2, e2, (e2-s2+1)*uint64(lss), a2
-	vp.Cover("read back")
 	err = t2.Write(dev, diskSize)
 	vp.Assert(err == nil, "a table that was read can be written")
 	vp.Assert(len(dev.Log) == 2*n1, "the rewrite issues the same number of writes")
@@ -180,18 +179,14 @@ func VP_C14_gpt_rewrite_read_min_512() { c14RewriteRead(70*512, 512, false, 128,
 func VP_C14_gpt_rewrite_read_3t_512()  { c14RewriteRead(3<<40, 512, true, 5, 2, 0xffff, 0x1ffffffff) }
 func VP_C14_gpt_rewrite_read_1g_4096() { c14RewriteRead(1<<30, 4096, true, 2, 77, 15, 0xfffff) }
 
-// VP_C14_gpt_detector_random_guid is NOT part of the claim (the GUIDs are not given here): it shows
-// that the checks above are not blind - a table without disk and partition GUIDs makes Write draw
-// random GUIDs and the engine's log of nondeterminism sources sees it (if it did not, this harness
-// would have no reachable Cover and be reported as vacuous).
+// VP_C14_gpt_detector_random_guid is NOT part of the claim (the disk GUID is not given here): it
+// shows that the checks above are not blind - a table without a disk GUID makes Write (its first step,
+// initTable) draw a random GUID and the engine's log of nondeterminism sources sees it (if it did not,
+// this harness would have no reachable Cover and be reported as vacuous).
 func VP_C14_gpt_detector_random_guid() {
-	p := &Partition{Index: 1, Start: 2048, End: 4095, Type: LinuxFilesystem, Name: "x"}
-	t := &Table{Partitions: []*Partition{p}, LogicalSectorSize: 512, PhysicalSectorSize: 512}
-	d := vpdev.NewMemDev("disk", 1<<22)
-	err := t.Write(d, 1<<22)
-	if err == nil {
-		if vp.NondetSources() > 0 {
-			vp.Cover("missing GUIDs are drawn at random and the nondeterminism log sees it")
-		}
+	t := &Table{LogicalSectorSize: 512, PhysicalSectorSize: 512}
+	t.initTable(1 << 22)
+	if vp.NondetSources() > 0 {
+		vp.Cover("a missing disk GUID is drawn at random and the nondeterminism log sees it")
 	}
 }
